@@ -435,8 +435,9 @@ func gen(c *ex.Ctx) {
 	var on [][2]string
 	var off []offRow
 	var order []string
-	if render != nil {
-		ast.Inspect(render.Body, func(n ast.Node) bool {
+	// read from the role-normalised copy: `cursor`, `next`, `on`, `off` are role names there
+	if renderN != nil {
+		ast.Inspect(renderN.Body, func(n ast.Node) bool {
 			ifs, ok := n.(*ast.IfStmt)
 			if !ok {
 				return true
